@@ -472,6 +472,13 @@ func (s *Server) attachClient(cl *Client, listener string) error {
 	verifAt("attach.inherited", cl)
 	s.Clients.Add(cl) // [MQTT-4.1.0-1]
 	verifAt("attach.registered", cl)
+	select {
+	case <-s.done:
+		// Close has begun and may already have disconnected the clients it found: a client registered
+		// after that would never be disconnected and Close would wait for it forever.
+		cl.Stop(packets.ErrServerShuttingDown)
+	default:
+	}
 
 	err = s.SendConnack(cl, code, sessionPresent, nil) // [MQTT-3.1.4-5] [MQTT-3.2.0-1] [MQTT-3.2.0-2] &[MQTT-3.14.0-1]
 	if err != nil {
